@@ -13,8 +13,9 @@ class _Exit(Exception):
 
 
 class MustFlow:
-    def __init__(self, transfer, on_return=None, loops_once=False, branch=None, on_expr=None):
+    def __init__(self, transfer, on_return=None, loops_once=False, branch=None, on_expr=None, guard=None):
         self.on_expr = on_expr
+        self.guard = guard  # (If node whose body always raises, facts) -> fact established on the surviving path
         self.transfer = transfer
         self.on_return = on_return or (lambda node, facts: None)
         self.loops_once = loops_once
@@ -55,6 +56,10 @@ class MustFlow:
                 return self.block(s.orelse, facts)
             a = self.block(s.body, facts)
             b = self.block(s.orelse, facts)
+            if a is None and b is not None and self.guard is not None:
+                g = self.guard(s, facts)
+                if g is not None:
+                    b = b | {g}
             if a is None:
                 return b
             if b is None:
